@@ -43,6 +43,20 @@ from .util import canon, u
 PURE_SELF_METHODS: set[str] = set()
 
 
+def _loop_raises(loop: ast.stmt) -> list[ast.Raise]:
+    """The `raise` statements of the body of `loop` itself that no `try` of the body can catch (top-level raises only)."""
+    found: list[ast.Raise] = []
+    todo = list(ast.iter_child_nodes(loop))
+    while todo:
+        n = todo.pop()
+        if isinstance(n, (ast.FunctionDef, ast.AsyncFunctionDef, ast.Lambda, ast.ClassDef, ast.Try)):
+            continue
+        if isinstance(n, ast.Raise):
+            found.append(n)
+        todo.extend(ast.iter_child_nodes(n))
+    return sorted(found, key=lambda r: (getattr(r, "lineno", 0), getattr(r, "col_offset", 0)))
+
+
 def _loop_returns(loop: ast.stmt) -> list[ast.Return]:
     """The `return` statements of the body of `loop` itself (not of a nested def / lambda), in source order."""
     found: list[ast.Return] = []
@@ -638,6 +652,14 @@ class SymExec:
                     q.exit, q.lineno = "return", getattr(r, "lineno", ln)
                     q.effects.append(Effect("loop-return", q.ret, q.epoch, q.lineno, r))
                     out.append((q, "return"))
+            # ... and likewise a `raise` of the body that no `try` of the body encloses: a may-raise path (VERIF_LOOP_RAISES=0 off)
+            if os.environ.get("VERIF_LOOP_RAISES", "1") != "0":
+                for r in _loop_raises(s):
+                    q = p.fork()
+                    q.ret = None if r.exc is None else _Subst(q.env).visit(copy.deepcopy(r.exc))
+                    q.exit, q.lineno = "raise", getattr(r, "lineno", ln)
+                    q.effects.append(Effect("raise", q.ret if q.ret is not None else ast.Constant(None), q.epoch, q.lineno))
+                    out.append((q, "raise"))
             out.append((p, "next"))
             return out
         if isinstance(s, (ast.With, ast.AsyncWith)):
